@@ -299,7 +299,8 @@ def scalar_ufunc(ufunc, method, inputs, kwargs):
             vals = [it[idx] if it is not None else a for it, a in zip(its, arrs)]
             out[idx] = f(*vals)
         return out
-    vals = [x.item() if isinstance(x, np.ndarray) else x for x in inputs]
+    # numpy scalars are turned into python scalars: np.float64.__mul__(proxy) would re-enter this dispatcher
+    vals = [x.item() if isinstance(x, (np.ndarray, np.generic)) else x for x in inputs]
     return f(*vals)
 
 
@@ -399,3 +400,29 @@ def patched(obj, name, value):
         yield
     finally:
         setattr(obj, name, old)
+
+
+@contextlib.contextmanager
+def object_zeros():
+    """np.zeros / np.ones with a concrete shape and the default (float) dtype return dtype=object arrays holding the
+    same numbers, so that code which later writes symbolic entries into them keeps working.  Same values, different
+    container dtype; to be used inside numpy_shims() for fixed-shape symbolic runs only."""
+    cur_zeros, cur_ones = np.zeros, np.ones
+
+    def zeros(shape, dtype=float, *a, **k):
+        r = cur_zeros(shape, dtype, *a, **k)
+        if isinstance(r, np.ndarray) and dtype in (float, np.float64, sym_float):
+            r = r.astype(object)
+        return r
+
+    def ones(shape, dtype=float, *a, **k):
+        r = cur_ones(shape, dtype, *a, **k)
+        if isinstance(r, np.ndarray) and dtype in (float, np.float64, sym_float):
+            r = r.astype(object)
+        return r
+
+    np.zeros, np.ones = zeros, ones
+    try:
+        yield
+    finally:
+        np.zeros, np.ones = cur_zeros, cur_ones
